@@ -4,6 +4,7 @@ import (
 	"bytes"
 	"encoding/json"
 	"fmt"
+	"google.golang.org/protobuf/types/known/timestamppb"
 	"io"
 	"os"
 	"os/exec"
@@ -398,6 +399,7 @@ func runStress(op M) any {
 		// a parser keeps between calls is first written then); the sequential parses that say what
 		// each result has to be come afterwards
 		got := make([][]string, 16)
+		madeUp := make([][]string, 16)
 		shared := reader.New()
 		// meanwhile a driver for an unrelated format is registered and removed over and over
 		var stopChurn atomic.Bool
@@ -437,6 +439,14 @@ func runStress(op M) any {
 								v.add("a component parsed next to others has licences %q, its document says %q", n.Licenses, lic)
 							}
 						}
+						// and an SPDX document that leaves its namespace out: the identifier made up for it
+						// is this document's own
+						bare := fmt.Sprintf(`{"spdxVersion":"SPDX-2.3","SPDXID":"SPDXRef-DOCUMENT","name":"bare-%d-%d","dataLicense":"CC0-1.0","packages":[{"SPDXID":"SPDXRef-p","name":"p","downloadLocation":"NOASSERTION"}]}`, w, i)
+						if bd, err := r.ParseStream(bytes.NewReader([]byte(bare))); err == nil && bd != nil && bd.Metadata != nil {
+							madeUp[w] = append(madeUp[w], bd.Metadata.Id)
+						} else {
+							v.add("an SPDX document without a namespace parsed next to others gives error %v", err)
+						}
 					})
 				}
 				count(2 * (iters/2 + 1))
@@ -457,11 +467,194 @@ func runStress(op M) any {
 		for i, in := range inputs {
 			want[i] = skelOf(reader.New(), in)
 		}
+		seenID := map[string]bool{}
+		for w := range madeUp {
+			for _, id := range madeUp[w] {
+				if id != "" && seenID[id] {
+					v.add("two independent documents without a namespace, parsed at the same time, were given the same identifier %q (parsed one after the other they never are)", id)
+				}
+				seenID[id] = true
+			}
+		}
 		for w := range got {
 			for i, g := range got[w] {
 				if k := (i*5 + w) % len(inputs); g != "" && g != want[k] {
 					v.add("a parse running next to others differs from the parse of the same document alone (input %d)", k)
 				}
+			}
+		}
+	case "shared":
+		// C11, second sentence: read-only and value-returning operations run concurrently on one shared
+		// document, its node list, nodes and edges. Every result equals the result of the same call
+		// made alone, the operands' snapshots are what they were, and (in the binary built with the
+		// race detector) no two calls touch the same memory with a write among them.
+		o := g.Opts(true)
+		o.AttrP = 0.9
+		a, b := NLOf(g.NodeList(o)), NLOf(g.NodeList(o))
+		mk := func(id string, k int) *sbom.Node {
+			nd := g.Node(id, 0.9)
+			at, _ := nd["a"].(M)
+			if at == nil {
+				at = M{}
+				nd["a"] = at
+			}
+			// every node carries persons (one with contacts) and references of its own
+			sup := []any{M{"n": "common corp", "e": "c@c", "o": true}, M{"n": fmt.Sprintf("supplier-%d", k), "o": true, "c": []any{M{"n": fmt.Sprintf("desk-%d", k)}, M{"n": "second desk"}}}}
+			for j := 0; j < k%3; j++ {
+				sup = append(sup, M{"n": fmt.Sprintf("extra-%d-%d", k, j)})
+			}
+			at["Suppliers"] = sup
+			at["Originators"] = []any{M{"n": fmt.Sprintf("orig-%d", k)}, M{"n": "common orig"}}
+			at["ExternalReferences"] = []any{M{"u": fmt.Sprintf("https://r/%d", k), "t": 3.0, "h": []any{[]any{2.0, fmt.Sprintf("%040d", k)}}}, M{"u": "https://common", "t": 1.0}}
+			return NodeOf(nd)
+		}
+		base := mk("base", 0)
+		others := []*sbom.Node{}
+		for k := 1; k <= 6; k++ {
+			others = append(others, mk(fmt.Sprintf("n%d", k), k))
+		}
+		others = append(others, base.Copy())
+		doc := &sbom.Document{Metadata: &sbom.Metadata{Id: "urn:uuid:5e671f63-d1a2-4b6e-a2a1-2f0a3f0b7b10", Name: "shared", Version: "1", Date: &timestamppb.Timestamp{Seconds: 1700000000}}, NodeList: NLOf(g.cdxTreeDoc(4, true)["nl"])}
+		for _, x := range []any{a, b, base, doc} {
+			padCapacity(x, 2)
+		}
+		nj := func(n *sbom.Node) any {
+			if n == nil {
+				return "nil"
+			}
+			return NodeJ(n)
+		}
+		type call struct {
+			name string
+			f    func() string
+		}
+		var callsL []call
+		add := func(name string, f func() string) { callsL = append(callsL, call{name, f}) }
+		for k, ot := range others {
+			ot, k := ot, k
+			add(fmt.Sprintf("Node.Diff #%d", k), func() string {
+				d := base.Diff(ot)
+				if d == nil {
+					return "nil"
+				}
+				return js(M{"a": nj(d.Added), "r": nj(d.Removed), "c": float64(d.DiffCount)})
+			})
+			add(fmt.Sprintf("Node.Diff (reversed) #%d", k), func() string {
+				d := ot.Diff(base)
+				if d == nil {
+					return "nil"
+				}
+				return js(M{"a": nj(d.Added), "r": nj(d.Removed), "c": float64(d.DiffCount)})
+			})
+			add(fmt.Sprintf("Node.Equal #%d", k), func() string { return fmt.Sprint(base.Equal(ot)) })
+			add(fmt.Sprintf("Node.Checksum #%d", k), func() string { return ot.Checksum() })
+			add(fmt.Sprintf("Node.Copy #%d", k), func() string { return js(nj(ot.Copy())) })
+			add(fmt.Sprintf("Node.HashesMatch #%d", k), func() string { return fmt.Sprint(base.HashesMatch(ot.Hashes)) })
+		}
+		add("NodeList.Equal", func() string { return fmt.Sprint(a.Equal(b), a.Equal(a), b.Equal(a)) })
+		add("NodeList.Copy", func() string { return js(NLJ(a.Copy())) })
+		add("NodeList.Union", func() string { return js(CanonNL(NLJ(a.Union(b)))) })
+		add("NodeList.Intersect", func() string { return js(CanonNL(NLJ(a.Intersect(b)))) })
+		add("GetRootNodes", func() string { return js(NodesJ(a.GetRootNodes())) })
+		add("Document.GetRootNodes", func() string { return js(NodesJ(doc.GetRootNodes())) })
+		add("GetNodesByName", func() string { return js(NodesJ(a.GetNodesByName("x"))) })
+		add("GetNodesByIdentifier", func() string { return js(NodesJ(a.GetNodesByIdentifier("purl", "pkg:npm/a@1"))) })
+		add("GetNodesByPurlType", func() string { return js(CanonNL(NLJ(a.GetNodesByPurlType("npm")))) })
+		for _, n := range a.Nodes {
+			n := n
+			add("GetMatchingNode "+n.Id, func() string {
+				r, err := b.GetMatchingNode(n)
+				if err != nil {
+					return "err"
+				}
+				return js(nj(r))
+			})
+			add("GetNodeByID "+n.Id, func() string { return js(nj(b.GetNodeByID(n.Id))) })
+		}
+		for _, id := range a.RootElements {
+			id := id
+			add("NodeGraph "+id, func() string { return js(CanonNL(NLJ(a.NodeGraph(id)))) })
+			add("NodeDescendants "+id, func() string { return js(CanonNL(NLJ(a.NodeDescendants(id, 3)))) })
+			add("NodeSiblings "+id, func() string { return js(CanonNL(NLJ(a.NodeSiblings(id)))) })
+		}
+		for i, e := range a.Edges {
+			e, i := e, i
+			add(fmt.Sprintf("Edge.Equal/Copy #%d", i), func() string { return fmt.Sprint(e.Equal(a.Edges[0]), e.Equal(e.Copy()), e.PointsTo("a")) })
+		}
+		for _, f := range []formats.Format{formats.CDX15JSON, formats.CDX14JSON, formats.SPDX23JSON} {
+			f := f
+			add("write "+string(f), func() string {
+				by, err := WriteDoc(doc, f, 2)
+				if err != nil {
+					return "err"
+				}
+				// up to the creation date and the order of set-valued arrays (what C07 leaves open)
+				return fmt.Sprint(len(by), " bytes, digest ", outputDigest(by))
+			})
+		}
+		operands := []any{a, b, base, doc}
+		for _, ot := range others {
+			operands = append(operands, ot)
+		}
+		before := make([]string, len(operands))
+		for i, x := range operands {
+			before[i], _ = deepSnapshot(x)
+		}
+		// the calls meet for the first time while others are running; what each has to return is
+		// established afterwards, by the same calls made alone
+		rounds := iters / 30
+		if rounds < 4 {
+			rounds = 4
+		}
+		got := make([][]string, 12)
+		for w := range got {
+			wg.Add(1)
+			got[w] = make([]string, rounds*len(callsL))
+			go func(w int) {
+				defer wg.Done()
+				for r := 0; r < rounds; r++ {
+					for i := range callsL {
+						k := (i + w*7) % len(callsL)
+						guard(v, callsL[k].name, func() { got[w][r*len(callsL)+k] = callsL[k].f() })
+					}
+				}
+				count(rounds * len(callsL))
+			}(w)
+		}
+		wg.Wait()
+		want := make([]string, len(callsL))
+		for k := range callsL {
+			guard(v, callsL[k].name, func() { want[k] = callsL[k].f() })
+		}
+		bad := map[int]bool{}
+		for w := range got {
+			for j, s := range got[w] {
+				if k := j % len(callsL); s != want[k] && !bad[k] {
+					bad[k] = true
+					at := 0
+					for at < len(s) && at < len(want[k]) && s[at] == want[k][at] {
+						at++
+					}
+					lo := at - 30
+					if lo < 0 {
+						lo = 0
+					}
+					cut := func(x string) string {
+						if len(x) > at+40 {
+							return x[lo : at+40]
+						}
+						if lo > len(x) {
+							return ""
+						}
+						return x[lo:]
+					}
+					v.add("%s on shared operands, running next to other read-only calls, returns something else than the same call alone (…%s… against …%s…)", callsL[k].name, cut(s), cut(want[k]))
+				}
+			}
+		}
+		for i, x := range operands {
+			if after, _ := deepSnapshot(x); after != before[i] {
+				v.add("operand %d of the concurrent read-only calls is not what it was before them", i)
 			}
 		}
 	case "io":
@@ -759,6 +952,12 @@ func concGen(g *G, tier string) []M {
 	if os.Getenv("VERIF_PROP") == "C04" {
 		scenarios = []string{"parse"} // the clause "never terminate the process" of C04
 	}
+	if os.Getenv("VERIF_PROP") == "C11" {
+		scenarios = []string{"shared", "shared"} // read-only calls on one shared document
+		if n > 10 {
+			n = 10
+		}
+	}
 	for i := 0; i < n; i++ {
 		for _, sc := range scenarios {
 			ops = append(ops, M{"op": "stress", "scenario": sc, "seed": float64(g.Int(1 << 30)), "iters": float64(iters)})
@@ -790,6 +989,9 @@ func oracleConc(op M, res any, exec func(M) any) []Finding {
 func concProps(op M) []string {
 	if asStr(op["scenario"]) == "parse" {
 		return []string{"C17", "C04"}
+	}
+	if asStr(op["scenario"]) == "shared" {
+		return []string{"C11"}
 	}
 	return []string{"C17"}
 }
